@@ -4,6 +4,13 @@ import json, os
 HERE = os.path.dirname(os.path.dirname(os.path.abspath(__file__)))
 
 CLAIMED = {
+    "C17": dict(
+        technique="MIR site inventory (panic/bounds/cast/RefCell) with dominating-guard discharge + reviewed exact-key table; call-graph SCCs; loop-exit and static scans",
+        text="Decides: every potential panic/truncation/bounds site in 7 crates (hand-written and macro-generated bodies) is discharged by a verified rule or "
+             "reviewed with a reason, so any NEW site fails; recursion only in three reviewed tree walks; every loop has an exit; no writable statics. "
+             "Does not decide termination in general, allocation blow-up, or panics inside dependencies.",
+        note="Trusted: the one-line reviewed reasons (spec/panic_allow.json); rustc MIR incl. its Assert terminators.",
+        design="DESIGN.md §4 C17"),
     "C01": dict(
         technique="type/alias facts + MIR decision extraction of the number-admission paths + who-may-call deny list + serializer effect order",
         text="Decides structural necessary conditions only: sorted map type, Integer only via as_i64 -> js_int::Int::try_from, every other number "
